@@ -212,3 +212,18 @@ Theorem C07_end_to_end : forall compress decompress wc,
   file_sorter_run compress decompress wc c mf ins = Done out -> sorter_spec mf ins = Done out.
 Proof. exact file_sorter_spec. Qed.
 Print Assumptions C07_end_to_end.
+
+(* ================= the merge functions of the correspondence =================
+   the sorter runs that are compared with the implementation use concatenation (mf_concat) or "join with the
+   separator 0x7C" (mf_join: it sees the order of the values and empty values at every position); both are pure
+   and obey the flattening law, so C07_sorter applies to exactly those runs: every one that finishes returns
+   the specification's output, whatever the configuration *)
+From Grenad.proofs Require Import MergeFns.
+
+Theorem C07_concat_runs : forall c ins out, sorter_run c mf_concat ins = Done out -> sorter_spec mf_concat ins = Done out.
+Proof. exact concat_runs_meet_the_specification. Qed.
+Print Assumptions C07_concat_runs.
+
+Theorem C07_join_runs : forall c ins out, sorter_run c mf_join ins = Done out -> sorter_spec mf_join ins = Done out.
+Proof. exact join_runs_meet_the_specification. Qed.
+Print Assumptions C07_join_runs.
